@@ -74,6 +74,7 @@ def Bridge.step (br : Bridge) (fs : List Force) (st : St) : Op → Bridge
   | .mInvalidate e =>
     let br := if e.comp ≤ 9 then br.app (.invalCache e.comp) else br
     br.app (.unmark 0 (meIdx e))
+  | .invalAll g => if 3 ≤ g ∧ g ≤ 9 then br.app (.invalAll g) else { br with ok := false }
 
 structure Sim where
   fs : List Force := []
@@ -148,6 +149,7 @@ def parseOp (toks : List String) : Option Op :=
   | ["setOpt", v] => some (.setOpt v.toNat!)
   | ["mRealize", e] => (parseME e).map .mRealize
   | ["mInvalidate", e] => (parseME e).map .mInvalidate
+  | ["invalAll", g] => some (.invalAll g.toNat!)
   | ["realize", g] => some (.realize g.toNat!)
   | ["gravQuery", i] => some (.gravQuery i.toNat!)
   | ["peQuery"] => some .peQuery
